@@ -104,16 +104,14 @@ pub fn intersect_cc<'a>(mut a: &'a Circle, mut b: &'a Circle) -> CircleIntersect
     } else if d < a.r - b.r + EPS {
         CircleIntersection::TouchInside(a.c + (b.c - a.c) / d * a.r)
     } else if d < a.r + b.r - EPS {
-        let line = Line::new(
-            -a.c.x * 2.0 + b.c.x * 2.0,
-            -a.c.y * 2.0 + b.c.y * 2.0,
-            a.c.x.powi(2) + a.c.y.powi(2) - b.c.x.powi(2) - b.c.y.powi(2) - a.r.powi(2) + b.r.powi(2),
-        );
-        match intersect_cl(a, &line) {
-            CircleLineIntersection::None => CircleIntersection::None,
-            CircleLineIntersection::Touch(p) => CircleIntersection::TouchOutside(p),
-            CircleLineIntersection::Intersect(u, v) => CircleIntersection::Intersect(u, v),
-        }
+        // proper crossing: the radical line meets the centre line at distance x from a.c,
+        // the two points are at height h above and below it
+        let x = (d * d + a.r * a.r - b.r * b.r) / (2.0 * d);
+        let h = (a.r * a.r - x * x).max(0.0).sqrt();
+        let dir = (b.c - a.c) / d;
+        let mid = a.c + dir * x;
+        let par = Point::new(-dir.y, dir.x);
+        CircleIntersection::Intersect(mid + par * h, mid - par * h)
     } else if d < a.r + b.r + EPS {
         CircleIntersection::TouchOutside(a.c + (b.c - a.c) / d * a.r)
     } else {
